@@ -30,6 +30,17 @@ def main():
     mod = importlib.import_module("chx.harness." + modname)
     if hasattr(mod, "setup"):
         mod.setup(params)
+    # every execution path starts from the same module-level state of the library (see chx/statereset.py)
+    from chx import statereset
+    from crosshair import statespace
+    statereset.snapshot()
+    _orig_init = statespace.StateSpace.__init__
+
+    def _init(self, *a, **kw):
+        statereset.reset()
+        _orig_init(self, *a, **kw)
+
+    statespace.StateSpace.__init__ = _init
     stats = collections.Counter()
     opts = AnalysisOptionSet(
         per_condition_timeout=tmo,
@@ -58,7 +69,7 @@ def main():
         "z3_unknown": prelude.Z3_STATS["unknown"],
         "analysis_s": round(t2 - t1, 3),
         "wall_s": round(t2 - t0, 3),
-        "notes": hsupport.NOTES[:20] + _unsupported(),
+        "notes": hsupport.NOTES[:20] + _unsupported() + ["library module state changed during a call: " + x for x in sorted(statereset.CHANGED)],
     }
     sys.stdout.write("\n@@RESULT@@" + json.dumps(rec) + "\n")
     sys.stdout.flush()
